@@ -1,14 +1,14 @@
 #!/bin/sh
 # sweep_seeds.sh [seed ...] : runs every seeded change against the quick checks of its property in a
 # scratch worktree (so /repo itself is untouched) and writes seeded/RESULTS.json
-cd /verif
+V="$(cd "$(dirname "$0")/.." && pwd)"; cd "$V"
 WT=/tmp/wt_sweep_$$
 git -C /repo worktree add -q --detach "$WT" HEAD || exit 9
 OUT=/tmp/seed_results_$$.txt; : > $OUT
 seeds="$@"; [ -n "$seeds" ] || seeds=$(ls seeded | grep '^C')
 for n in $seeds; do
   p=$(echo "$n" | cut -c1-3)
-  git -C "$WT" apply "/verif/seeded/$n/patch.diff" || { echo "$n APPLY-FAILED" >> $OUT; continue; }
+  git -C "$WT" apply "$V/seeded/$n/patch.diff" || { echo "$n APPLY-FAILED" >> $OUT; continue; }
   out=$(RV_REPO="$WT" ./check "$p" --tier quick --no-evidence 2>&1); rc=$?
   nv=$(echo "$out" | grep -c '^VIOLATION')
   obs=$(echo "$out" | grep '^VIOLATION' | sed 's/.*replays\/[^/]*\///; s/\.json//' | head -4 | tr '\n' ' ')
@@ -17,10 +17,11 @@ for n in $seeds; do
 done
 git -C /repo worktree remove --force "$WT"
 cat $OUT
-python3 - "$OUT" <<'PY'
+python3 - "$OUT" "$V" <<'PY'
 import sys, json, os
 res = {}
-p = "/verif/seeded/RESULTS.json"
+V = sys.argv[2]
+p = f"{V}/seeded/RESULTS.json"
 if os.path.exists(p):
     res = json.load(open(p))
 for line in open(sys.argv[1]):
@@ -33,7 +34,7 @@ for line in open(sys.argv[1]):
     res[n] = {"detected": rc == 1 and nv > 0, "exit_code": rc, "violations": nv, "first_obligations": parts[3:]}
 json.dump(res, open(p, "w"), indent=1, sort_keys=True)
 for n, r in res.items():
-    mp = f"/verif/seeded/{n}/meta.json"
+    mp = f"{V}/seeded/{n}/meta.json"
     if os.path.exists(mp):
         m = json.load(open(mp)); m["detected_by"] = r; json.dump(m, open(mp, "w"), indent=1)
 PY
